@@ -332,4 +332,41 @@ theorem protect_block_not_opened (c : CryptoOps) (hs : SealLaws c) (hcm : SealCo
   rw [c01_serBytes_length] at hplen
   exact createBlock_not_opened c hs hcm pk key m rnd e suf hkid hEncKey (by omega) hcb hdisj
 
+/-- a key view without private and without symmetric keys decrypts nothing -/
+theorem process_no_keys (c : CryptoOps) (kv : KeyView) (hp : kv.privs = none) (hs : kv.syms = none)
+    (d m : Bytes) : process c kv d ≠ .ok m := by
+  intro h
+  obtain ⟨k, i, _, hk⟩ := process_ok h
+  cases k with
+  | block =>
+    obtain ⟨_, _, _, ks, hks, _⟩ := decryptKind_block_ok hk
+    rw [hs] at hks; cases hks
+  | struct =>
+    obtain ⟨ps, hps, _⟩ := decryptKind_struct_ok hk
+    rw [hp] at hps; cases hps
+
+/-! ## sufficient conditions for being a non-owner -/
+
+/-- a reader whose key store has no keys at all is a non-owner – no assumption about the crypto -/
+theorem nonOwner_of_no_keys (c : CryptoOps) (kvW kvR : KeyView) (cfg : MaskCfg) (v rnd p : Bytes)
+    (hnm : matchKind cfg.kind (hiddenPart cfg v) = false) (hnr : registryMatch (hiddenPart cfg v) = false)
+    (hp : protect c kvW cfg.kind (hiddenPart cfg v) rnd = .ok p) (hplen : p.length < 2^63)
+    (hpc : cfg.pattern.length ≤ 12 ∨ cfg.pattern ≠ p ++ afterContainer cfg (windowPart cfg v))
+    (hR : kvR.privs = none ∧ kvR.syms = none) : NonOwnerHyps c kvW kvR cfg v rnd p :=
+  ⟨hnm, hnr, hp, hplen, fun m => process_no_keys c kvR hR.1 hR.2 _ m, hpc⟩
+
+/-- under key commitment (`SealLaws` + `SealCommit`) a reader whose symmetric keys do not include the
+writer's key is a non-owner of an AcraBlock-masked value -/
+theorem nonOwner_of_commit (c : CryptoOps) (hs : SealLaws c) (hcm : SealCommit c) (kvW kvR : KeyView) (cfg : MaskCfg)
+    (v rnd p key : Bytes) (hkind : cfg.kind = .block)
+    (hW : kvW.sym = some key) (hkid : (keyId c key []).length = 2)
+    (hEncKey : ∀ encKey, c.enc key [] (rnd.take 32) ((rnd.drop 44).take 12) = some encKey → encKey.length < 65536)
+    (hnm : matchKind cfg.kind (hiddenPart cfg v) = false) (hnr : registryMatch (hiddenPart cfg v) = false)
+    (hp : protect c kvW cfg.kind (hiddenPart cfg v) rnd = .ok p) (hplen : p.length < 2^63)
+    (hpc : cfg.pattern.length ≤ 12 ∨ cfg.pattern ≠ p ++ afterContainer cfg (windowPart cfg v))
+    (hdisj : ∀ ks, kvR.syms = some ks → key ∉ ks) : NonOwnerHyps c kvW kvR cfg v rnd p := by
+  refine ⟨hnm, hnr, hp, hplen, ?_, hpc⟩
+  rw [hkind] at hnm hp
+  exact protect_block_not_opened c hs hcm kvW kvR key _ rnd p _ hW hkid hEncKey (by omega) hnm hnr hp hdisj
+
 end AcraModel.Envelope
